@@ -209,6 +209,10 @@ func (r *Runner) runMonitors(s *Step, rep *Reply) {
 	} else {
 		r.Count("requests_monitored_after_known_defect")
 	}
+	if n := r.Inst.PushesOutsideLock.Load(); n > 0 {
+		r.Violate("C15", "push-outside-lock", r.Inst.Policy, "%d of %d unsolicited UpdateContainers calls were made while the pipeline lock was free: another request can be processed between deciding the changes and telling the runtime", n, r.Inst.Pushes.Load())
+	}
+	r.Stats["pushes_checked_for_lock"] = int(r.Inst.Pushes.Load())
 	r.monC05(s, rep)
 	r.monC04(s, rep)
 	r.monC09step(s, rep)
